@@ -5,11 +5,12 @@ relies on under any hash seed); the output discipline "remove what the plugin ow
 the model yields" makes the owned part of the directory independent of its history
 (`owned_indep_history`, `rerun_idempotent`).  Kernel obligations on a scan of generator/ regenerated
 every run: every source of nondeterminism (sets, directory listings, uuids, hash/id, randomness,
-clock, environment; every read of a model `id_`) is one of the accounted sites with its
-neutraliser, and every plugin follows its expected output discipline (cleanup glob == written
+clock, environment; every read of a model `id_`; interpreter-level state that would outlive a
+generation: mutated module/class-level containers, `global` rebinding, memoising decorators, mutable
+defaults, stateful module-level objects) is one of the accounted sites with its neutraliser, and every plugin follows its expected output discipline (cleanup glob == written
 suffix, or fixed file names).  The link from these to byte-identical output is the oracle: real
 runs of the four plugins under several hash seeds x {fresh dir, re-run, after a different model,
-with hand-placed stale owned files}, owned files compared byte for byte (testdata: reduced model on
+with hand-placed stale owned files, after a generation of a different model in the same interpreter}, owned files compared byte for byte (testdata: reduced model on
 disk, full model in process).
 """
 import json
@@ -17,7 +18,8 @@ import json
 import common
 from common import Broken
 
-THEOREMS = ["C16_sites_accounted", "C16_disciplines", "C16_sorted_independent_of_hash_order", "C16_owned_part_independent_of_history"]
+THEOREMS = ["C16_sites_accounted", "C16_disciplines", "C16_sorted_independent_of_hash_order", "C16_owned_part_independent_of_history",
+            "C16_independent_of_earlier_generations_in_the_process"]
 
 INST = """import LspVerif.Props.C16
 import GenNondet
@@ -31,13 +33,20 @@ theorem C16_owned_part_independent_of_history (owns : Name → Bool) (emit fs₁
     ownedPart owns (runPlugin owns emit fs₁) = ownedPart owns (runPlugin owns emit fs₂) ∧
     (∀ emit', ownedPart owns (runPlugin owns emit (runPlugin owns emit' fs₁)) = emit) :=
   ⟨owned_indep_history' owns emit fs₁ fs₂ he, fun emit' => rerun_idempotent owns emit emit' fs₁ he⟩
+/-- what `C16_sites_accounted` buys for generations that share an interpreter: no module-level container is mutated, no name is rebound
+    through `global`, no memoising decorator, no mutable default argument, no stateful module-level object (the scan lists every such site)
+    — so the interpreter-level state is the same before and after a generation, and then earlier generations cannot matter -/
+theorem C16_independent_of_earlier_generations_in_the_process {σ M O : Type} (g : σ → M → O × σ) (h : ∀ s m, (g s m).2 = s)
+    (s : σ) (ms : List M) (m : M) : (g (ms.foldl (fun s m' => (g s m').2) s) m).1 = (g s m).1 :=
+  stateless_history_independent g h s ms m
 example : ownedPart (fun p => p == n!"a.cs") (runPlugin (fun p => p == n!"a.cs") [(n!"a.cs", n!"new")] [(n!"a.cs", n!"stale"), (n!"README", n!"x")]) = [(n!"a.cs", n!"new")] := by decide
 #eval (Gen.nondetSites.filter (fun s => !accounted.contains s)).map (fun s => (s.1.toString, s.2.1.toString, s.2.2.1.toString, s.2.2.2.toString))
 """ + "".join(f"#print axioms {t}\n" for t in THEOREMS)
 
 
 def run(ctx):
-    ctx.rule = ("real plugin runs: 4 plugins x hash seeds x {fresh directory, re-run, after a different (evolved) model, hand-placed stale owned files}; "
+    ctx.rule = ("real plugin runs: 4 plugins x hash seeds x {fresh directory, re-run, after a different (evolved) model, hand-placed stale owned files, "
+                "after a generation of a different model in the same interpreter (both orders) vs fresh process}; "
                 "owned files compared byte for byte; testdata full model compared in process across seeds; distinct = distinct run")
     ctx.trusted += ["scanner x_nondet.py (syntactic; a nondeterminism source reached through an alias or a helper outside generator/ is not seen - the seed runs are what would expose it)",
                     "abstract file-system model of a plugin run (delete owned, write emitted)"]
